@@ -22,7 +22,7 @@ import (
 
 type SCase struct {
 	// a pattern judged against Model/Pattern.v (harness/c01pat.go); the other fields are then unused
-	Pat *PatCase `json:"pattern_units,omitempty"`
+	Pat    *PatCase `json:"pattern_units,omitempty"`
 	Schema *GSchema `json:"schema"`
 	Value  any      `json:"value"`
 	Mode   int      `json:"mode,omitempty"` // 0 plain, 1 asreq, 2 asreq without read-only checks, 3 asrep, 4 asrep without write-only checks
@@ -58,7 +58,7 @@ type SObs struct {
 	DefErr     []SErr   `json:"default_errors,omitempty"` // top-level error (one, or members if multi-error)
 	MultiErrs  []SErr   `json:"multi_errors,omitempty"`
 	PtrBad     []string `json:"pointer_violations,omitempty"` // direct C12 oracle on the Go side
-	Typed      string   `json:"typed_entry_point,omitempty"` // IsMatchingJSONBoolean/Number/String/Array/Object: verdict unlike IsMatching
+	Typed      string   `json:"typed_entry_point,omitempty"`  // IsMatchingJSONBoolean/Number/String/Array/Object: verdict unlike IsMatching
 	ModeMix    string   `json:"mode_mix,omitempty"`           // FailFast()+MultiErrors() together: verdict unlike FailFast() alone
 	Leaks      []string `json:"leaks,omitempty"`              // direct C19 oracle on the Go side
 	Reasons    []string `json:"reasons,omitempty"`
@@ -272,7 +272,9 @@ func runSchemaCase(c *SCase) SObs {
 	s := c.Schema.ToOpenAPI()
 	val := normJSON(c.Value)
 	visit := func(extra ...openapi3.SchemaValidationOption) (err error, p any) {
-		p = catchPanic(func() { err = s.VisitJSON(deepCopyJSON(val), append(append([]openapi3.SchemaValidationOption{}, opts...), extra...)...) })
+		p = catchPanic(func() {
+			err = s.VisitJSON(deepCopyJSON(val), append(append([]openapi3.SchemaValidationOption{}, opts...), extra...)...)
+		})
 		if p != nil {
 			o.Panics = append(o.Panics, fmt.Sprint(p))
 		}
@@ -357,7 +359,9 @@ func runSchemaCase(c *SCase) SObs {
 	openapi3.SchemaErrorDetailsDisabled = true
 	for _, extra := range [][]openapi3.SchemaValidationOption{nil, {openapi3.MultiErrors()}} {
 		var err error
-		if p := catchPanic(func() { err = s.VisitJSON(deepCopyJSON(val), append(append([]openapi3.SchemaValidationOption{}, opts...), extra...)...) }); p == nil && err != nil {
+		if p := catchPanic(func() {
+			err = s.VisitJSON(deepCopyJSON(val), append(append([]openapi3.SchemaValidationOption{}, opts...), extra...)...)
+		}); p == nil && err != nil {
 			catchPanic(func() { o.Reasons = append(o.Reasons, err.Error()) })
 		}
 	}
@@ -731,7 +735,7 @@ func modesWithDefaults(seed uint64, n int, meta *Meta) {
 					if se, ok := e.(*openapi3.SchemaError); ok && !pointerOK(v0, se) && !(se.Value == nil && strings.HasPrefix(se.Reason, "cannot compile pattern")) {
 						meta.GoViolation = append(meta.GoViolation, map[string]any{"signature": "pointer:with-defaults", "cases": []any{c},
 							"go_observation": fmt.Sprintf("field=%s pointer=/%s quoted=%v", se.SchemaField, strings.Join(se.JSONPointer(), "/"), se.Value),
-							"judgement": "with default-setting on, a schema error does not quote the value found at its pointer"})
+							"judgement":      "with default-setting on, a schema error does not quote the value found at its pointer"})
 					}
 				}
 			}
@@ -1210,7 +1214,7 @@ func c12Discriminator(meta *Meta) {
 					if se, ok := e.(*openapi3.SchemaError); ok && se.SchemaField == "discriminator" && !pointerOK(v0, se) {
 						meta.GoViolation = append(meta.GoViolation, map[string]any{"signature": "pointer:discriminator", "cases": []any{map[string]any{"value": val, "where": nested}},
 							"go_observation": fmt.Sprintf("pointer=/%s quoted=%v reason=%s", strings.Join(se.JSONPointer(), "/"), se.Value, se.Reason),
-							"judgement": "a discriminator error does not quote the value found at its pointer"})
+							"judgement":      "a discriminator error does not quote the value found at its pointer"})
 					}
 				}
 			}
